@@ -74,7 +74,8 @@ theorem model_labels_are_sites : ∀ pc ∈ hookPcs, pc.label ∈ modelSites.map
 /-- **static lock / atomic discipline of map.go** (regenerated from the source on every run; the static half of "concurrent use is
 free of data races" — the dynamic half is the race detector): every access to `m.dirty` / `m.misses` lies in a region where `m.mu`
 is held (or in a `…Locked` function, which is only called from such regions), `entry.p` is only ever used as `&e.p` in a
-`sync/atomic` call, `m.read` only through the methods of `atomic.Value` — and the check is not vacuous (21 guarded and 28 atomic
+`sync/atomic` call, `m.read` only through the methods of `atomic.Value`, and no statement of map.go stores through a dereferenced pointer (`*p = …`: a value published in an
+entry is never written again, so the lock-free readers' `*(*T)(p)` cannot race with a writer) — and the check is not vacuous (21 guarded and 28 atomic
 accesses at the time of writing).  With the mutual exclusion of `mu` (`C04.conc_lock_exclusive`) no two goroutines can access a
 plain field concurrently. -/
 theorem gen_race_discipline :
